@@ -950,6 +950,12 @@ func main() {
 		xplore.Worker(spec2, spec3)
 	}
 	run := ev.Start("C14", "model_checking")
+	if oBlockReward != consensus.BlockReward || oInitSupply != consensus.InitBTMSupply || oThreshold != consensus.RewardThreshold {
+		// the subsidy per block, the genesis supply and the pledge threshold are the documented amounts the statement is read with
+		run.Violation("consensus-constants-differ-from-documented", fmt.Sprintf("consensus.BlockReward=%d InitBTMSupply=%d RewardThreshold=%v, documented %d, %d, %v",
+			consensus.BlockReward, consensus.InitBTMSupply, consensus.RewardThreshold, oBlockReward, oInitSupply, oThreshold), nil)
+		run.Finish()
+	}
 	all := []int{0, 1, 2}
 	var fullKinds [][2]int
 	for f := 0; f < 3; f++ {
